@@ -1,0 +1,68 @@
+//go:build verif
+
+package astits
+
+// Verification hooks (build tag "verif"): a seam in front of the package-level sync.Pool, whose
+// reuse pattern depends on P-local caches, GC and, under the race detector, a deliberate
+// random drop - none of which a deterministic simulation can replay. Nothing here is active
+// unless VerifSetPool installs a pool; without the build tag none of it is compiled.
+const verifHooks = true
+
+// VerifPool replaces the backing store of bytesPool while installed.
+type VerifPool interface {
+	// Get returns a buffer to reuse, or nil for a fresh one. Only its capacity matters.
+	Get() []byte
+	// Put takes back a buffer, extended to its full capacity.
+	Put(b []byte)
+}
+
+// Yield sites reported to the yield function.
+const (
+	VerifSiteBeforeGet = 0
+	VerifSiteAfterGet  = 1
+	VerifSiteBeforePut = 2
+)
+
+var (
+	verifPool  VerifPool
+	verifYield func(site int)
+)
+
+// VerifSetPool installs (or, with nil, removes) the simulated pool and the yield function that
+// is called around every pool operation. Not safe for use while the library is running.
+func VerifSetPool(p VerifPool, yield func(site int)) {
+	verifPool = p
+	verifYield = yield
+}
+
+func verifGet(size int) *bytesPoolItem {
+	if verifPool == nil {
+		return nil
+	}
+	if verifYield != nil {
+		verifYield(VerifSiteBeforeGet)
+	}
+	payload := &bytesPoolItem{s: verifPool.Get()}
+	// same sizing rule as bytesPooler.get
+	if cap(payload.s) >= size {
+		payload.s = payload.s[:size]
+	} else {
+		n := size - cap(payload.s)
+		payload.s = append(payload.s[:cap(payload.s)], make([]byte, n)...)[:size]
+	}
+	if verifYield != nil {
+		verifYield(VerifSiteAfterGet)
+	}
+	return payload
+}
+
+func verifPut(payload *bytesPoolItem) bool {
+	if verifPool == nil {
+		return false
+	}
+	if verifYield != nil {
+		verifYield(VerifSiteBeforePut)
+	}
+	verifPool.Put(payload.s[:cap(payload.s)])
+	return true
+}
